@@ -303,6 +303,63 @@ def _key(witness, label):
     return label
 
 
+def make_edit_harness():
+    """identifiers and names after a circuit was looked up and then edited in place: every element of the edited circuit has exactly one running
+    index 0..N-1 and one per-type count, names stay unique, and the fit identifiers cover every parameter (no identifier may be remembered
+    from before the edit)"""
+    def harness(eng):
+        import pyimpspec.analysis.fitting as fit
+        from pyimpspec.circuit.circuit import Circuit
+        from pyimpspec.circuit.series import Series
+        from pyimpspec.circuit.parallel import Parallel
+        classes = _classes()
+        R, C = classes["R"], classes["C"]
+        inner = Parallel([R(), C()])
+        top = Series([R(), inner, C()])
+        circuit = Circuit(top)
+        for running in (True, False):              # the look-ups before the edit
+            circuit.generate_element_identifiers(running=running)
+        ok0, _ = call(fit.generate_fit_identifiers, circuit)
+        edit = eng.choice(5, "edit")
+        if edit == 0:       # replace the first resistor by another instance of the same type (the description code does not change)
+            top.pop(0)
+            top.insert(0, R())
+        elif edit == 1:     # the same inside the nested parallel connection
+            inner.pop(1)
+            inner.append(C())
+        elif edit == 2:
+            top.append(R())
+        elif edit == 3:
+            top.remove(top.get_elements(recursive=False)[-1])
+        else:
+            top.insert(1, C())
+        elements = circuit.get_elements(recursive=True)
+        for running in (True, False):
+            ok, ids = call(circuit.generate_element_identifiers, running=running)
+            eng.check(ok, "edit:identifiers can be generated after an edit", lambda: "%r" % (ids,))
+            if not ok:
+                continue
+            eng.check(set(ids.keys()) == set(elements), "edit:exactly the elements of the edited circuit have identifiers",
+                      lambda: "%d identifiers for %d elements" % (len(ids), len(elements)))
+            if set(ids.keys()) != set(elements):
+                continue
+            if running:
+                eng.check(sorted(ids.values()) == list(range(len(elements))), "edit:running indices are 0..N-1", lambda: "%r" % (sorted(ids.values()),))
+            else:
+                for cls in {type(e) for e in elements}:
+                    got = sorted(v for e, v in ids.items() if type(e) is cls)
+                    eng.check(got == list(range(1, len(got) + 1)), "edit:per-type counts start at 1 and are consecutive", lambda: "%s: %r" % (cls.__name__, got))
+            okn, names = call(lambda: [circuit.get_element_name(e, ids) for e in elements])
+            eng.check(okn and len(set(names)) == len(elements), "edit:every element has a unique name", lambda: "%r" % (names,))
+        okf, fids = call(fit.generate_fit_identifiers, circuit)
+        eng.check(okf and set(fids.keys()) == set(elements), "edit:the fit identifiers cover every element of the edited circuit", lambda: "%r" % (fids,))
+        oks, expr = call(circuit.to_sympy)
+        n_par = sum(len(e.get_values()) for e in elements)
+        eng.check(oks and len({str(x) for x in expr.free_symbols} - {"f"}) == n_par, "edit:one variable per parameter in the symbolic expression", lambda: "%r" % (expr,))
+        eng.reached("edit")
+    return harness
+
+
 def obligations(tier: str):
     from sx.runner import Obligation
     import pyimpspec.analysis.fitting as fit
@@ -327,6 +384,8 @@ def obligations(tier: str):
                           "of to_sympy are exactly one per parameter, named by running identifier or label", functions=funcs + [base.Container.to_sympy], expect_reach=["sympy"], mode="fresh", max_paths=1500000, key=_key))
     obs.append(Obligation("encoding", make_encoding_harness(), bounds="identifiers 0..24 x the six registered parameter symbols with the most underscores", functions=[fit._extract_parameters],
                           expect_reach=["encoding"], max_paths=1500000))
+    obs.append(Obligation("edit", make_edit_harness(), bounds="[R (RC) C] looked up, then edited in place in one of five ways (same-type replacement at the top or in the nested connection, "
+                          "append, remove, insert), then looked up again", functions=funcs, expect_reach=["edit"]))
     for o in obs:
         o.replay = o.harness
     return obs
